@@ -8,13 +8,13 @@ DETECTED = {"%s-%s" % (p, m) for p in ["C%02d" % i for i in range(1, 20)] for m 
 FIX = {
     "C02-m1": "sighashComputationMode of every JSON type (arrays and objects are unhashable: the table lookup raised)",
     "C03-m1": "the same menu entry (C03 runs C02's corpus through the server)",
-    "C06-m1": "see the builder's last commit, if any: validating one loaded object two and three times (builder-certs, asked 80 minutes before the end)",
-    "C06-m2": "see the builder's last commit, if any: byte 0 of a signature set to 0x31 (builder-certs, asked 80 minutes before the end)",
+    "C06-m1": "every loaded certificate object is validated two and three times and must answer the same (builder-certs, 25b1e32)",
+    "C06-m2": "every bit of bytes 0 and 1 of each element's signature (tag and length) flipped (builder-certs, 25b1e32)",
     "C10-m2": "a valid PIN file made of look-alike characters (0 l I 1 O)",
     "C12-m1": "caught at once by the sibling C01 (sequence differential: a legacy sign after a segwit one on the same dongle object); in C12 the two sign requests are of the same kind",
     "C12-m2": "OPEN: one listener thread per address of a multi-address bind host - the fake socket module answers one listening socket; getaddrinfo of the bind host is outside the model (recorded under limits)",
     "C15-m1": "a re-gathering history: an earlier attestation file as the input certificate of a new gathering after the device state moved on; one element per name in every written file (builder-attest, f6b3021)",
-    "C16-m1": "see the builder's last commit, if any: spare elements with falsy signed_by (builder-certs, asked 80 minutes before the end)",
+    "C16-m1": "the field-defect menu also with target lists that leave the element off every target's path (builder-certs, 25b1e32)",
     "C17-m2": "authorization files with 8..12 signatures (around the UI's maximum of 10 authorizers) against thresholds n-2, n-1, n, never and genuine devices needing the last signature (builder-admin, bdbc7a5)",
 }
 NEEDS_RE = re.compile(r"(?is)(?:what )?(?:is |it )?(?:need(?:ed|s)?|trigger|manifest)[^\n]*\n(.*?)(?:\n#|\n\*\*[A-Z]|\Z)")
